@@ -75,6 +75,22 @@ CLAIMED["C20"] = dict(
     tech="CBMC 6.11 function+loop contracts (goto-instrument --dfcc, SAT) on mechanically extracted C; irsx + exact rational arithmetic for the constants "
          "and symbolic utilities", ref="4 C20", cbmc=True)
 
+CLAIMED["C19"] = dict(
+    text="The sparse routines are executed symbolically on a caller-owned compressed host matrix (published pattern at the block offset plus extra stored entries): "
+         "on every path the block entries are the identical op-DAGs of the dense routine (or exactly real-equal), every other stored value keeps its initial symbol, "
+         "inner/outer index arrays are unchanged and the matrix stays compressed; entries absent from a published pattern are identically zero for all a.",
+    note="A1 for the support clauses; A6 incl. symbolic execution of Eigen's sparse containers and of the pattern globals' static initialisers; A7 (groups, offsets {0,1,3}, "
+         "host sizes Dof+{0,2,5}, double); A8.",
+    tech=IRSX + "structural op-DAG identity and frames on Eigen::SparseMatrix storage; exact normal form for the support clauses", ref="4 C19")
+CLAIMED["C12"] = dict(
+    text="Shims evaluate both sides of each relation of the property (ConstantVelocity, out-of-range values, end points, derivatives, concat_local/global, crop with "
+         "and without localisation) through the public API; irsx executes std::vector, find_idx and the spline evaluation symbolically; every path reached by a "
+         "stratified grid of time configurations (all orderings of the query/crop times relative to the knots, <= 3 segments) is proved for ALL control velocities "
+         "and start elements; ConstantVelocity for all T, t, v symbolically, degrees 1..5. Found and repaired: ConstantVelocity T/3, crop knot offsets/localize=false.",
+    note="A1; A2; A6 (incl. libstdc++ std::vector); A7: degrees/groups sampled, <= 3 segments, time-like inputs enumerated on a dyadic grid (not symbolic) for the "
+         "relations; crop/ConstantVelocity only for vector-valued splines; arclength, FixedCubic not covered; rewrite rules R1/R2.",
+    tech=IRSX + "concolic path discovery + exact normal form over symbolic control data", ref="4 C12")
+
 NOT_YET = {}
 
 
